@@ -851,7 +851,15 @@ func builtinToInt(env *LEnv, args *LVal) *LVal {
 	case LInt:
 		return val
 	case LFloat:
-		return Int(int(val.Float))
+		// Go leaves the conversion of a float that does not fit an int
+		// implementation-defined (amd64 yields the minimum int for 1e30 and
+		// for -1e30 alike), so such a float is refused like an out-of-range
+		// digit string is.
+		f := val.Float
+		if f != f || f >= -float64(math.MinInt) || f < float64(math.MinInt) {
+			return env.Errorf("float cannot be represented as an int: %v", val)
+		}
+		return Int(int(f))
 	default:
 		return env.Errorf("cannot convert type to int: %v", val.Type)
 	}
